@@ -100,6 +100,7 @@ var nontrivialProbes = map[string][]string{
 	"C12": {"retention_removed_jobs", "purge_undefined_pipeline"},
 	"C13": {"read_lock_holder_ran_inside_another"},
 	"C14": {"http_"},
+	"C20": {"canceled_tree_checked"},
 	"C18": {"env_task_checked"},
 	"C19": {"output_task_checked"},
 	"C17": {"edit_checked_after_poll", "invalid_edit_checked_after_poll"},
